@@ -67,6 +67,11 @@ type ExecutionContext struct {
 	template   *Template
 	macroDepth int
 
+	// Per-execution state of nodes which have to remember something between their
+	// executions within one rendering (cycle position, ifchanged's last values).
+	// Shared by all child contexts of one execution; never stored in the compiled template.
+	nodeState map[INode]any
+
 	Autoescape bool
 	Public     Context
 	Private    Context
@@ -84,7 +89,8 @@ func newExecutionContext(tpl *Template, ctx Context) *ExecutionContext {
 	privateCtx["pongo2"] = pongo2MetaContext
 
 	return &ExecutionContext{
-		template: tpl,
+		template:  tpl,
+		nodeState: make(map[INode]any),
 
 		Public:     ctx,
 		Private:    privateCtx,
@@ -93,8 +99,12 @@ func newExecutionContext(tpl *Template, ctx Context) *ExecutionContext {
 }
 
 func NewChildExecutionContext(parent *ExecutionContext) *ExecutionContext {
+	if parent.nodeState == nil {
+		parent.nodeState = make(map[INode]any)
+	}
 	newctx := &ExecutionContext{
-		template: parent.template,
+		template:  parent.template,
+		nodeState: parent.nodeState,
 
 		Public:     parent.Public,
 		Private:    make(Context),
@@ -106,6 +116,17 @@ func NewChildExecutionContext(parent *ExecutionContext) *ExecutionContext {
 	newctx.Private.Update(parent.Private)
 
 	return newctx
+}
+
+func (ctx *ExecutionContext) getNodeState(node INode) any {
+	return ctx.nodeState[node]
+}
+
+func (ctx *ExecutionContext) setNodeState(node INode, state any) {
+	if ctx.nodeState == nil {
+		ctx.nodeState = make(map[INode]any)
+	}
+	ctx.nodeState[node] = state
 }
 
 func (ctx *ExecutionContext) Error(msg string, token *Token) *Error {
